@@ -159,7 +159,7 @@ def run(tier):
     t0 = time.time()
     V = vlib.Verdict("C15")
     cfgs = configs(tier)
-    budget = 8000 if tier == "quick" else 300000
+    budget = 8000 if tier == "quick" else 80000
     with vlib.Scratch() as scratch:
         # design level: the user-facing property over the specification's own variables, before any implementation is involved
         dl_ok, dl_gen, dl_dist, dl_out = vlib.run_design_level("MC_HandoverDesign.tla", "MC_HandoverDesign.cfg", scratch)
